@@ -1,10 +1,13 @@
-"""Static configuration of /verif/check: which harness packages serve which
-property, and which repository files get their `sync` import redirected to the
-pkg/verifsync shim by the build overlay."""
+"""Configuration of /verif/check, aggregated from harness/*/props.json: which
+harness packages serve which property, and which repository files get their
+`sync` import redirected to the pkg/verifsync shim by the build overlay."""
+import glob, json, os
+
+VERIF = os.path.dirname(os.path.abspath(__file__))
 
 TIER = {
-    "quick": {"time_limit_s": 60, "hard_timeout_s": 600},
-    "thorough": {"time_limit_s": 900, "hard_timeout_s": 3600},
+    "quick": {"time_limit_s": 60, "hard_timeout_s": 900},
+    "thorough": {"time_limit_s": 900, "hard_timeout_s": 5400},
 }
 
 OVERLAY_FILES = [
@@ -28,20 +31,29 @@ OVERLAY_FILES = [
     "pkg/builder/local_build_executor.go",
 ]
 
-PROPS = {
-    "C14": {
-        "harnesses": ["vfs"],
-        "technique": "stateless model checking of the implementation: exhaustive enumeration of thread interleavings at lock/try-lock granularity under a controlled scheduler (deviation-bounded DFS + state-key pruning), lock-leak monitor on every return",
-        "level_text": "Every interleaving of the listed 2-3 thread call sets on the real directory tree / LockPile is executed (quick: <=3 preemptions; thorough: unbounded with state pruning); deadlock = no enabled thread; after every call return the shim's registry of held locks must be empty. Bounded-exhaustive over the drivers, not over all programs.",
-        "level_note": "Trusts: the sync shim substitution (overlay), synctest quiescence detection, that code between scheduling points touches no unsynchronised shared state (checked by a separate -race pass). Covers only paths the drivers reach.",
-        "rule": "every interleaving (lock/try-lock granularity) of the listed concurrent VFS call sets within the deviation bound, state-pruned; a case is an execution, distinct = distinct state keys",
-        "assumptions": [],
-    },
-}
+PROPS = {}
+for _f in sorted(glob.glob(os.path.join(VERIF, "harness", "*", "props.json"))):
+    _c = json.load(open(_f))
+    _h = _c.get("harness") or os.path.basename(os.path.dirname(_f))
+    for _o in _c.get("overlay", []):
+        if _o not in OVERLAY_FILES:
+            OVERLAY_FILES.append(_o)
+    for _p, _pc in _c.get("properties", {}).items():
+        _e = PROPS.setdefault(_p, {"harnesses": []})
+        if _pc.get("primary", True) and "technique" in _pc:
+            for _k, _v in _pc.items():
+                if _k != "primary":
+                    _e[_k] = _v
+            _e["harnesses"].insert(0, _h)
+        else:
+            _e["harnesses"].append(_h)
+            _e.setdefault("assumptions", [])
+for _p in list(PROPS):
+    if "technique" not in PROPS[_p]:
+        del PROPS[_p]
 
-# Properties not (yet) claimed, with the reason. Kept current by hand.
-NOT_APPLICABLE = {
-}
+# Properties not claimed, with the reason. Kept current by hand.
+NOT_APPLICABLE = {}
 for _p in ["C%02d" % i for i in range(1, 21)]:
     if _p not in PROPS:
-        NOT_APPLICABLE[_p] = "check not built yet in this session (work in progress; the technique applies, see DESIGN.md section 7)"
+        NOT_APPLICABLE[_p] = "check not built yet (work in progress; model checking applies, see DESIGN.md section 7)"
